@@ -257,7 +257,12 @@ StepResponse(e) ==
                  FailIf(b # gen, D("block built by the harness is not the spec's block of that kind"))
                  \cup FailIf(e.vb # vbSpec, D("real ValidateBlock disagrees with the spec's")),
                  FailIf(tookIt /\ e.pre.peer # e.p /\ postPeer # e.p,
-                        V("AcceptOnlyFromAsked", e.kind \o ":asked=" \o (IF e.pre.peer \in honest THEN "honest" ELSE "other"))),
+                        V("AcceptOnlyFromAsked", e.kind \o ":asked=" \o (IF e.pre.peer \in honest THEN "honest" ELSE "other")))
+                 \* the unassigned window: the requester had no owner already at the previous logged pool (its
+                 \* peer had been removed, nobody else picked, no redo queued) and the sender is not in the pool
+                 \cup FailIf(tookIt /\ ~e.pre.redo /\ e.p \notin DOMAIN lp.peers
+                             /\ b.h \in ReqHeights(gp) /\ gp.req[b.h].peer = Nil,
+                             V("AcceptOnlyFromAsked", e.kind \o ":asked=nobody")),
                  {}, r.pool)
      /\ UNCHANGED <<tT, honest, gst, gstore, hand, wide>>
 
